@@ -74,3 +74,30 @@ Proof.
   - rewrite two_ingress_opens_forwarded. simpl. auto.
   - unfold forwards_to. fold (two_ingress_state fm). rewrite two_ingress_data_lost. discriminate.
 Qed.
+
+(* ------------------------------------------------------------------------- *)
+(** * C17 witnesses on the faithful model *)
+
+Definition orphan_e1 : entry := mkentry 1 1 3 1.
+Definition orphan_e2 : entry := mkentry 2 1 3 3.
+
+(** two ingress peers use upstream id 1; both close; both peers and even the
+    downstream peer disconnect: e1 is still indexed under byDownstream[1] *)
+Definition orphan_history : list top :=
+  [TInsert orphan_e1; TInsert orphan_e2;
+   TPopMatching 1 1; TPopMatching 1 2;
+   TDeleteByPeer 1; TDeleteByPeer 2; TDeleteByPeer 3].
+
+Lemma collision_orphan :
+  trun empty_table orphan_history = {| by_up := []; by_down := [(1, orphan_e1)] |}.
+Proof. vm_compute. reflexivity. Qed.
+
+(** handlePeerDisconnect cleans the TCP table only *)
+Definition disconnect_history (fm : fam) : list event :=
+  [EConnect 1 false; EConnect 3 true; open_of fm 1 1 [3] 11; EDisconnect 1; EDisconnect 3].
+
+Lemma udp_icmp_survive_disconnect :
+  a_tcp (fst (arun (ainit 9 []) (disconnect_history TCP))) = empty_table /\
+  a_udp (fst (arun (ainit 9 []) (disconnect_history UDP))) <> empty_table /\
+  a_icmp (fst (arun (ainit 9 []) (disconnect_history ICMP))) <> empty_table.
+Proof. vm_compute. repeat split; discriminate. Qed.
